@@ -443,10 +443,15 @@ class SigmaRuleBase:
         # the special cases
         if len(self.tags) > 0:
             d["tags"] = [str(tag) for tag in self.tags]
+        # Only the date is written: a timestamp (YYYY-MM-DDTHH:MM:SS) is none of the accepted spellings.
         if self.date is not None:
-            d["date"] = self.date.isoformat()
+            d["date"] = (
+                self.date.date() if isinstance(self.date, dt.datetime) else self.date
+            ).isoformat()
         if self.modified is not None:
-            d["modified"] = self.modified.isoformat()
+            d["modified"] = (
+                self.modified.date() if isinstance(self.modified, dt.datetime) else self.modified
+            ).isoformat()
         if self.related is not None and len(self.related.related) > 0:
             d["related"] = [
                 {"id": str(related.id), "type": str(related.type)}
